@@ -474,7 +474,7 @@ def discharge(ob, timeout_ms=10000, extra=(), nice=None, sizes=None):
         has_q = bool(ob.universals) or any(_has_quant(h) for h in extra)
         r2 = None
         if has_q:
-            s2 = solver_for(min(timeout_ms, 20000))
+            s2 = solver_for(min(timeout_ms, 20000) if timeout_ms <= 30000 else min(timeout_ms, 60000))
             s2.add(*(ob.hyps(quantified=True) + list(extra)))
             s2.add(z3.Not(ob.goal))
             r2 = s2.check()
